@@ -831,47 +831,7 @@ func c01rest(c *an.Ctx) {
 		}
 	})
 
-	c.Check("R-KEY", "memoisation key of expensive fields names field, source and selection", 1, func(o *an.O) {
-		fn := c.NeedFunc(gq, "getWorkCacheKey")
-		lits := an.StructLits(fn, "resolveAndExecuteCacheKey")
-		an.Need(len(lits) >= 1, "resolveAndExecuteCacheKey literal")
-		l := lits[0]
-		o.Site(l.Alloc)
-		want := map[string]int{"field": 1, "source": 0, "selection": 2}
-		for f, pi := range want {
-			nParam := 0
-			for _, r := range *l.Alloc.Referrers() {
-				fa, ok := r.(*ssa.FieldAddr)
-				if !ok || an.FieldName(fa.X.Type(), fa.Field) != f {
-					continue
-				}
-				for _, u := range *fa.Referrers() {
-					st, ok := u.(*ssa.Store)
-					if !ok {
-						continue
-					}
-					v := an.StripConv(st.Val)
-					if v == ssa.Value(fn.Params[pi]) {
-						nParam++
-						continue
-					}
-					if _, fresh := v.(*ssa.Alloc); fresh && f == "source" {
-						continue // an always-different key for non-comparable sources only loses caching
-					}
-					o.FailAt(st, "the cache key's %s is set to %s, not getWorkCacheKey's %s argument: one selection's cached sub-result would be served for another", f, an.Expr(v), fn.Params[pi].Name())
-				}
-			}
-			if nParam == 0 {
-				o.FailAt(l.Alloc, "the cache key never carries getWorkCacheKey's %s argument", fn.Params[pi].Name())
-			}
-		}
-		// the key struct has no further fields that are left unset
-		if n := an.NamedOf(l.Alloc.Type()); n != nil {
-			if st, ok := n.Underlying().(*types.Struct); ok && st.NumFields() != 3 {
-				o.FailAt(l.Alloc, "resolveAndExecuteCacheKey has %d fields; the rule knows 3 - extend the table", st.NumFields())
-			}
-		}
-	})
+	c.Check("R-KEY", "memoisation key of expensive fields names field, source and selection", 1, func(o *an.O) { ruleWorkCacheKey(c, o) })
 }
 
 func singleElem(v ssa.Value) ssa.Value {
@@ -967,5 +927,52 @@ func ruleUnionMemberSelection(c *an.Ctx, o *an.O) {
 	}
 	if !okSel {
 		o.FailAt(call, "union-level selections (__typename) are not passed on to the member object")
+	}
+}
+
+// ruleWorkCacheKey (shared by C01 and C14): the key under which the resolved
+// sub-tree of an expensive field is memoised names the field, the source object
+// and the selection (whose sub-selections shape the cached value).
+func ruleWorkCacheKey(c *an.Ctx, o *an.O) {
+	p := c.P
+	_ = p
+	fn := c.NeedFunc(gq, "getWorkCacheKey")
+	lits := an.StructLits(fn, "resolveAndExecuteCacheKey")
+	an.Need(len(lits) >= 1, "resolveAndExecuteCacheKey literal")
+	l := lits[0]
+	o.Site(l.Alloc)
+	want := map[string]int{"field": 1, "source": 0, "selection": 2}
+	for f, pi := range want {
+		nParam := 0
+		for _, r := range *l.Alloc.Referrers() {
+			fa, ok := r.(*ssa.FieldAddr)
+			if !ok || an.FieldName(fa.X.Type(), fa.Field) != f {
+				continue
+			}
+			for _, u := range *fa.Referrers() {
+				st, ok := u.(*ssa.Store)
+				if !ok {
+					continue
+				}
+				v := an.StripConv(st.Val)
+				if v == ssa.Value(fn.Params[pi]) {
+					nParam++
+					continue
+				}
+				if _, fresh := v.(*ssa.Alloc); fresh && f == "source" {
+					continue // an always-different key for non-comparable sources only loses caching
+				}
+				o.FailAt(st, "the cache key's %s is set to %s, not getWorkCacheKey's %s argument: one selection's cached sub-result would be served for another", f, an.Expr(v), fn.Params[pi].Name())
+			}
+		}
+		if nParam == 0 {
+			o.FailAt(l.Alloc, "the cache key never carries getWorkCacheKey's %s argument", fn.Params[pi].Name())
+		}
+	}
+	// the key struct has no further fields that are left unset
+	if n := an.NamedOf(l.Alloc.Type()); n != nil {
+		if st, ok := n.Underlying().(*types.Struct); ok && st.NumFields() != 3 {
+			o.FailAt(l.Alloc, "resolveAndExecuteCacheKey has %d fields; the rule knows 3 - extend the table", st.NumFields())
+		}
 	}
 }
